@@ -136,6 +136,7 @@ Section Keep.
   Lemma keep_reparent (X : oid -> Prop) s o np nn : keep X s (reparent s o np nn).
   Proof.
     unfold reparent. destruct (objs s o) as [ob|]; [|apply keep_refl]. destruct (o_parent ob); [|apply keep_refl]. cbv zeta.
+    eapply keep_trans; [|apply keep_register].
     eapply keep_trans; [|apply keep_upd_obj; intros pb; apply Hc].
     eapply keep_trans; [|apply keep_upd_obj; intros pb; apply Ha].
     eapply keep_trans; [|apply keep_upd_obj; intros pb; apply Hc].
